@@ -1,6 +1,7 @@
 //! rxRust verification harness: executes case files against the real crate and prints
 //! one canonical result line per case.
 mod chain;
+mod group;
 mod probe;
 mod sexp;
 mod subj;
@@ -20,6 +21,7 @@ fn run_case(case: &Sexp) -> String {
     "hotchain" => chain::local::run_hotchain(body),
     "chain_t" => chain::threads::run_chain(body),
     "hotchain_t" => chain::threads::run_hotchain(body),
+    "group_by" => group::run_group_by(body),
     "subject" => subj::run_subject(body),
     "behavior" => subj::run_behavior(body),
     "op2" => chain::local::run_op2(body),
